@@ -257,7 +257,8 @@ def check_formats(st, nbest, lang, formats, base, count=True, skip=()):
                         exp_toks.append(a)
                     if sd['tokens'] != exp_toks:
                         bad(fmt, f'sentence {si}: tokens {sd["tokens"]} expected {exp_toks}', kind='tokens')
-                    allids = []
+                    if sd['problems']:
+                        bad(fmt, f'sentence {si}: {sd["problems"]}', kind='integrity')
                     for ti, ((tree, score), cd) in enumerate(zip(trees, sd['ccgs'])):
                         if cd['problems']:
                             bad(fmt, f'sentence {si} tree {ti}: {cd["problems"]}', kind='integrity')
@@ -347,6 +348,69 @@ def _shape(p):
     return ['T', len(p) - 3] + [x for c in p[3:] for x in _shape(c)]
 
 
+# ---------------------------------------------------------------- label vocabulary of the rule functions and trees that cover it
+import re as _re
+from mc import schemas as SC, pairs as PR
+
+
+def rule_vocabulary(lang):
+    """(arity, op_string, op_symbol) the rule functions can return, read from the grammar source"""
+    src = open(os.path.join(boot.REPO, 'depccg', 'grammar', f'{lang}.py')).read()
+    voc = set()
+    for a, b in _re.findall(r'op_string="([^"]+)",\s*op_symbol="([^"]+)"', src):
+        voc.add(('binary', a, b))
+    if lang == 'en':
+        for a in _re.findall(r"op_string='(\w+)' if type_raised else '(\w+)'", src):
+            voc.add(('unary', a[0], '<un>'))
+            voc.add(('unary', a[1], '<un>'))
+    else:
+        body = src[src.index('def _unary_rule_symbol'):src.index('def apply_unary_rules')]
+        for a in _re.findall(r"return '(\w+)'", body):
+            voc.add(('unary', a, a))
+    return voc
+
+
+def extra_unary(lang):
+    """synthetic unary table entries that reach the unary labels the shipped table does not"""
+    P = K.P
+    if lang == 'ja':
+        return {P('(S[mod=adv,form=cont,fin=f]\\NP[case=ga,mod=nm,fin=f])\\NP[case=o,mod=nm,fin=f]'): [P('S[mod=X1,form=X2,fin=X3]/S[mod=X1,form=X2,fin=X3]')],
+                P('NP[case=nc,mod=nm,fin=f]'): [P('NP[case=ga,mod=nm,fin=f]')]}
+    return {}
+
+
+def covering_trees(lang, missing):
+    """2-leaf trees built by applying the rule function to schema instantiations, one for every label not reached by the licensed derivations"""
+    from depccg.grammar import en, ja
+    fn = en.apply_binary_rules if lang == 'en' else ja.apply_binary_rules
+    un = en.apply_unary_rules if lang == 'en' else ja.apply_unary_rules
+    pool = [K.P(c) for c in (PR.POOL_EN if lang == 'en' else PR.POOL_JA)]
+    out = {}
+    need = {m for m in missing if m[0] == 'binary'}
+    cands = []
+    for A, B, C, D in itertools.product(pool[:5], repeat=4):
+        rows = SC.en_converse(A, B, C, D) if lang == 'en' else SC.ja_converse(A, B, C, D)
+        cands += [(r[0], r[1]) for r in rows]
+    if lang == 'en':
+        from mc.props.c03 import CONST
+        cands += [(K.P(x), K.P(y)) for x, y, _, _, _ in CONST]
+    for x, y in cands:
+        if not need:
+            break
+        for r in fn(x, y):
+            k = ('binary', r.op_string, r.op_symbol)
+            if k in need:
+                need.discard(k)
+                out[k] = ('B', str(r.cat), (r.op_string, r.op_symbol, r.head_is_left), ('L', str(x), 0), ('L', str(y), 1))
+    table = dict(extra_unary(lang))
+    for m in [m for m in missing if m[0] == 'unary']:
+        for x, ts in table.items():
+            for r in un(x, table):
+                if ('unary', r.op_string, r.op_symbol) == m:
+                    out[m] = ('U', str(r.cat), (r.op_string, r.op_symbol), ('L', str(x), 0))
+    return out
+
+
 # ---------------------------------------------------------------- tree families
 def make_tree(t, words, lang, rich=True):
     if lang == 'en':
@@ -354,7 +418,7 @@ def make_tree(t, words, lang, rich=True):
     return T.build(t, words, lambda w, i: T.ja_token(w, i))
 
 
-CORE = ['a', '(', ')', '<', '>', '&', "'", '"', '\\', '/', '-LRB-', 'x)', '日本', ')[conj]', '{', '[', '(y', '|']
+CORE = ['a', '(', ')', '<', '>', '<unk>', '&', "'", '"', '\\', '/', '-LRB-', 'x)', '日本', ')[conj]', '{', '[', '(y', '|']
 
 
 def families(lang, tier, tokens, max_pairs=None):
@@ -376,7 +440,11 @@ def families(lang, tier, tokens, max_pairs=None):
         pool = tokens if (n == 1 or tier == 'thorough') else core_toks
         for ws in itertools.product(pool, repeat=n):
             yield 'small', t, list(ws)
-    for name, fam in (('licensed', lic), ('arbitrary', arb)):
+    reached = set()
+    for t in lic:
+        T.labels_in(t, reached)
+    cover = list(covering_trees(lang, rule_vocabulary(lang) - reached).values())
+    for name, fam in (('licensed', lic), ('licensed', cover), ('arbitrary', arb)):
         for idx, t in enumerate(fam):
             n = T.n_leaves(t)
             default = [f'w{i}' for i in range(n)]
